@@ -1,29 +1,36 @@
 package redis
 
 import (
+	"strings"
 	"testing"
 	"time"
 
 	"github.com/alicebob/miniredis/v2"
 )
 
-// F23 (C19): the lease is the configured seconds plus 500 ms, for every lease. `int(seconds)*1000 + 500` is computed
-// in `int`, which is 32 bits wide on 32-bit platforms: SetExpire(30 days) overflows there — the SET is refused
-// ("invalid expire time") or the lock gets a lease of about a second. Run with GOARCH=386 to see it; on 64-bit
-// platforms the test passes either way.
+// F23 (C19): the lease is the configured seconds plus 500 ms, for every lease. `int(seconds)*1000 + 500` was computed
+// in `int`, which is 32 bits wide on 32-bit platforms: SetExpire(4294968) (≈ 49.7 days) wrapped to 1204 ms, so Acquire
+// reported success with a lease of about a second; SetExpire(30 days) produced a negative number and the script was
+// refused. Run with GOARCH=386; on 64-bit platforms the test passes either way.
 //
 //	GOARCH=386 go test ./core/stores/redis -run TestDemoLeaseOnThirtyTwoBit
+//
+// (miniredis itself, built for 386, cannot parse a PX value above MaxInt32: with the repaired code it answers
+// "value is not an integer or out of range" — a limit of the test double, reported as a skip, never a short lease.)
 func TestDemoLeaseOnThirtyTwoBit(t *testing.T) {
 	mr := miniredis.RunT(t)
 	client := New(mr.Addr())
 	lock := NewRedisLock(client, "demo-f23")
-	const thirtyDays = 30 * 24 * 3600
-	lock.SetExpire(thirtyDays)
+	const seconds = 4294968
+	lock.SetExpire(seconds)
 	ok, err := lock.Acquire()
-	if err != nil || !ok {
-		t.Fatalf("Acquire with a 30-day lease: ok=%v err=%v", ok, err)
+	if err != nil && strings.Contains(err.Error(), "not an integer or out of range") {
+		t.Skip("the lease was sent in full; miniredis built for a 32-bit platform cannot represent it")
 	}
-	if ttl := mr.TTL("demo-f23"); ttl < thirtyDays*time.Second {
-		t.Fatalf("lease is %v, want 30 days + 500ms", ttl)
+	if err != nil || !ok {
+		t.Fatalf("Acquire: ok=%v err=%v", ok, err)
+	}
+	if ttl := mr.TTL("demo-f23"); ttl < seconds*time.Second {
+		t.Fatalf("Acquire reported success with a lease of %v, configured %v", ttl, time.Duration(seconds)*time.Second)
 	}
 }
